@@ -20,6 +20,9 @@ var kinds = []string{
 	"deep-infinite", "deep-chain", "lame", "self-referral",
 	"huge-ns", "huge-ds", "huge-dnskey", "huge-rrsig",
 	"keycrowd", "nsec3-iter", "nsec3-deep",
+	// kinds that make the resolver restart / re-enter resolution inside one
+	// request tree (restart.go)
+	"qmin-parent", "qmin-fallback", "cached-cut", "alias-restart",
 }
 
 // QuerySpec is one client question.
@@ -28,12 +31,14 @@ type QuerySpec struct {
 	Type uint16 `json:"type"`
 	EDNS bool   `json:"edns"`
 	DO   bool   `json:"do"`
+	CD   bool   `json:"cd,omitempty"`
 }
 
 func (q QuerySpec) msg(id uint16) *dns.Msg {
 	m := new(dns.Msg)
 	m.SetQuestion(q.Name, q.Type)
 	m.Id = id
+	m.CheckingDisabled = q.CD
 	if q.EDNS {
 		m.SetEdns0(1232, q.DO)
 	}
@@ -47,6 +52,9 @@ func (q QuerySpec) String() string {
 	}
 	if q.DO {
 		f += "D"
+	}
+	if q.CD {
+		f += "C"
 	}
 	return fmt.Sprintf("%s %s [%s]", q.Name, dns.TypeToString[q.Type], f)
 }
@@ -80,6 +88,8 @@ type TopoSpec struct {
 	Slow bool `json:"slow,omitempty"`
 	// QMin is the resolver's qname_min_level for every stack of the topology.
 	QMin int `json:"qmin"`
+	// Restart: parameters of the restart kinds (restart.go).
+	Restart *RestartSpec `json:"restart,omitempty"`
 
 	Question QuerySpec `json:"question"`
 
@@ -94,7 +104,11 @@ type TopoSpec struct {
 }
 
 func (t *TopoSpec) shape() string {
-	return fmt.Sprintf("%s/%s/len%d/%d/signed=%v/nsec3=%v/tc=%v/qmin=%d", t.Kind, t.Variant, t.Len, t.Len2, t.Signed, t.NSEC3, t.TCAll, t.QMin)
+	s := fmt.Sprintf("%s/%s/len%d/%d/signed=%v/nsec3=%v/tc=%v/qmin=%d", t.Kind, t.Variant, t.Len, t.Len2, t.Signed, t.NSEC3, t.TCAll, t.QMin)
+	if t.Restart != nil {
+		s += "/" + t.Restart.shape()
+	}
+	return s
 }
 
 func pick[T any](rng *rand.Rand, xs ...T) T { return xs[rng.IntN(len(xs))] }
@@ -210,6 +224,8 @@ func genTopo(rng *rand.Rand, index int) *TopoSpec {
 		t.Len = 2 + rng.IntN(44)
 		t.Resolvable = true
 		q.Name = strings.Repeat("a.", t.Len) + "nx.n3." + tld
+	case "qmin-parent", "qmin-fallback", "cached-cut", "alias-restart":
+		genRestart(rng, t, tld, &q)
 	}
 	if t.Kind != "nsec3-iter" && t.Kind != "nsec3-deep" && t.Signed && rng.IntN(4) == 0 {
 		t.NSEC3 = true
@@ -776,6 +792,11 @@ func buildWorld(t *TopoSpec) *world {
 		z := w.addZone(apex, s)
 		z.AddMarked("www."+apex, dns.TypeA, 300)
 		z.AddMarked("zzz."+apex, dns.TypeA, 300)
+
+	case "qmin-parent", "qmin-fallback", "alias-restart":
+		buildRestart(w, st)
+	case "cached-cut":
+		buildCachedCut(w)
 	}
 
 	if t.TCAll {
